@@ -55,7 +55,8 @@ func main() {
 	}
 	r := evidence.New("C09", "exploration")
 	r.Rule("phase small: seeded DAG of ≤ ~14 nodes (referrer chains incl. referrers of untagged / absent / garbage subjects, indexes with and without subject, shared blobs, foreign layers) + a setup history H of pushes (children-first | parents-first | random | partial), tags (moved tags, tagged referrers, tagged blobs), untags and stray files; " +
-		"then EVERY node is tried as Delete target (AutoGC on and off, and once more after a GC) and GC is run after EVERY prefix of H, each on a freshly rebuilt store (one evaluation each). " +
+		"then EVERY node is tried as Delete target (AutoGC on and off, and once more after a GC) and GC is run after EVERY prefix of H, each on a freshly rebuilt store (one evaluation each); plus a GC made to fail by a corrupt reachable manifest (must change nothing reachable), followed by Deletes. " +
+		"A Delete whose cascade reaches a manifest twice (referrer of removed content that is also listed by a collected index) and a GC with second-order referrers are replayed 8 times on fresh stores (library map order) and must end identically. " +
 		"phase hist: DAG of ≤ 80 nodes, push phase, then 6–25 random operations (tag/move/untag/delete/GC/re-push/stray), every Delete and GC judged in place. " +
 		"Oracle: Exists, Resolve, Tags, Predecessors, recursive blobs/ listing before vs after against the reference GC model of the statement (removed set and kept set both exact; current tags, not ever-tagged). " +
 		"distinct = hash(DAG shape, operation sequence with targets/GC points); non-trivial = some judged operation removed ≥ 2 nodes or removed a node adjacent to a surviving tagged node")
@@ -102,7 +103,7 @@ func main() {
 	// a run that never reached the termination hook or never produced the
 	// shapes the property is about has observed too little
 	need := []string{"gc_subject_steps", "shape_gc_referrer_of_unreachable_subject", "shape_delete_spares_tagged_referrer",
-		"shape_delete_collects_formerly_tagged", "shape_delete_neverstored_successor_after_gc", "shape_gc_second_order_referrer", "moved_tags", "stray_blob_files_removed", "stray_other_files_kept"}
+		"shape_delete_collects_formerly_tagged", "shape_delete_neverstored_successor_after_gc", "shape_gc_second_order_referrer", "shape_delete_multiply_reached", "delete_order_probe_replays", "gc_failed_injected", "moved_tags", "stray_blob_files_removed", "stray_other_files_kept"}
 	code := 0
 	for _, k := range need {
 		if r.Counter(k) == 0 {
@@ -230,8 +231,11 @@ func makeDAG(rng *rand.Rand, n int) *gen.DAG {
 		o.Indexes = n/8 + rng.IntN(2)
 		o.BlobMax = 64
 		g := gen.Generate(rng, o)
-		if rng.IntN(3) == 0 {
+		switch rng.IntN(5) {
+		case 0:
 			augment(g, rng)
+		case 1, 2:
+			augmentGroup(g, rng)
 		}
 		seen := map[digest.Digest]bool{}
 		twin := false
@@ -283,6 +287,81 @@ func augment(g *gen.DAG, rng *rand.Rand) {
 	sm := desc(m)
 	add(gen.Manifest, gen.MTOCIManifest, ocispec.Manifest{Versioned: specs.Versioned{SchemaVersion: 2}, MediaType: gen.MTOCIManifest,
 		Config: desc(cfg), Layers: []ocispec.Descriptor{}, Subject: &sm, Annotations: salt()}, []int{m, cfg}, m)
+}
+
+// augmentGroup appends a referrer group: 1–3 referrer manifests of a subject
+// X, optionally a referrer of one of those referrers, and an index with
+// subject X that lists (groups) some of them. Deleting X with AutoGC reaches a
+// listed referrer twice: as a referrer of removed content and as the node that
+// loses its last predecessor (the index); which comes first is a map order.
+func augmentGroup(g *gen.DAG, rng *rand.Rand) {
+	var manifests, blobs []int
+	for _, nd := range g.Nodes {
+		if nd.Kind.IsManifestKind() {
+			manifests = append(manifests, nd.ID)
+		} else {
+			blobs = append(blobs, nd.ID)
+		}
+	}
+	if len(manifests) == 0 || len(blobs) == 0 {
+		return
+	}
+	salt := func() map[string]string { return map[string]string{"org.test.salt": fmt.Sprintf("%x", rng.Uint64())} }
+	desc := func(id int) ocispec.Descriptor { return g.Nodes[id].Desc }
+	man := func(subject int) int {
+		// own config so that the referrer has blobs only it uses
+		cb, _ := json.Marshal(map[string]any{"salt": rng.Uint64()})
+		cfg := addNode(g, gen.Config, "application/vnd.test.config.v1+json", json.RawMessage(cb), nil, -1)
+		m := ocispec.Manifest{Versioned: specs.Versioned{SchemaVersion: 2}, MediaType: gen.MTOCIManifest, Config: desc(cfg), Layers: []ocispec.Descriptor{}, Annotations: salt()}
+		sd := desc(subject)
+		m.Subject = &sd
+		succ := []int{subject, cfg}
+		if rng.IntN(2) == 0 {
+			l := blobs[rng.IntN(len(blobs))]
+			m.Layers = append(m.Layers, desc(l))
+			succ = append(succ, l)
+		}
+		return addNode(g, gen.Manifest, gen.MTOCIManifest, m, succ, subject)
+	}
+	x := manifests[rng.IntN(len(manifests))]
+	var members []int
+	for i, k := 0, 1+rng.IntN(3); i < k; i++ {
+		members = append(members, man(x))
+	}
+	if rng.IntN(2) == 0 { // deeper: a referrer of a referrer
+		members = append(members, man(members[rng.IntN(len(members))]))
+	}
+	// existing referrers of x may be grouped too
+	for _, r := range g.Referrers(x) {
+		if g.Nodes[r].Kind.IsManifestKind() && rng.IntN(3) == 0 {
+			dup := false
+			for _, m := range members {
+				dup = dup || m == r
+			}
+			if !dup {
+				members = append(members, r)
+			}
+		}
+	}
+	var listed []ocispec.Descriptor
+	succ := []int{}
+	subject := x
+	if rng.IntN(4) == 0 { // the grouping index refers to one of the referrers instead
+		subject = members[0]
+	}
+	succ = append(succ, subject)
+	for _, m := range members {
+		if m != subject && (rng.IntN(4) != 0 || len(listed) == 0) {
+			listed = append(listed, desc(m))
+			succ = append(succ, m)
+		}
+	}
+	if len(listed) == 0 {
+		return
+	}
+	sd := desc(subject)
+	addNode(g, gen.Index, gen.MTOCIIndex, ocispec.Index{Versioned: specs.Versioned{SchemaVersion: 2}, MediaType: gen.MTOCIIndex,
+		Manifests: listed, Subject: &sd, Annotations: salt()}, succ, subject)
 }
 
 func addNode(g *gen.DAG, kind gen.Kind, mt string, body any, succ []int, subject int) int {
@@ -445,8 +524,14 @@ func (e *env) randomOp(rng *rand.Rand, do func(op)) {
 			if n := pickNode(rng, e, false, 50); n >= 0 {
 				do(op{Op: "delete", Node: n, AutoGC: true})
 			}
-		case x < 75:
+		case x < 72:
 			do(op{Op: "gc"})
+		case x < 75:
+			if c := e.gcFailCandidates(); len(c) > 0 {
+				do(op{Op: "gcfail", Node: c[rng.IntN(len(c))]})
+			} else {
+				do(op{Op: "gc"})
+			}
 		case x < 93:
 			if n := pickNode(rng, e, false, 40); n >= 0 {
 				do(op{Op: "push", Node: n})
@@ -564,6 +649,27 @@ func runSmall(i int, rng *rand.Rand, res *worker.Result) {
 		ok = sub(H, op{Op: "delete", Node: t, AutoGC: true}) &&
 			sub(H, op{Op: "delete", Node: t, AutoGC: false}) &&
 			sub(H, op{Op: "gc"}, op{Op: "delete", Node: t, AutoGC: true})
+	}
+	// GC that fails half-way (a reachable manifest is unreadable), then a Delete
+	if ok {
+		probe := &env{g: g, m: newModel(g), res: &worker.Result{}}
+		for _, o := range H {
+			switch o.Op {
+			case "push":
+				probe.m.stored[o.Node] = true
+			case "tag":
+				probe.m.tags[o.Ref] = o.Node
+			case "untag":
+				delete(probe.m.tags, o.Ref)
+			}
+		}
+		if c := probe.gcFailCandidates(); len(c) > 0 {
+			bad := c[rng.IntN(len(c))]
+			ok = sub(H, op{Op: "gcfail", Node: bad})
+			for t := rng.IntN(3); t < len(g.Nodes) && ok; t += 3 {
+				ok = sub(H, op{Op: "gcfail", Node: bad}, op{Op: "delete", Node: t, AutoGC: true})
+			}
+		}
 	}
 	res.Evals = evals
 	if evals == 0 {
